@@ -9,7 +9,7 @@
    bypass included), and WriteControl between messages.  [run_items] runs them through the model
    functions that the harness cases are run through ([script_is_step_op]). *)
 From Verif Require Import Lib.Base Lib.Sx Model.WsWrite.
-From Verif Require Import Proofs.WsWrite Proofs.WsWriteFrame Proofs.WsWriteSession Proofs.WsWriteZ Proofs.WsWritePrepared.
+From Verif Require Import Proofs.WsWrite Proofs.WsWriteFrame Proofs.WsWriteSession Proofs.WsWriteZ Proofs.WsWritePrepared Proofs.WsWriteScript.
 Open Scope N_scope.
 
 (* ---- c13_wire_valid: connections without per-message compression ----
@@ -42,6 +42,33 @@ Theorem c13_wire_valid_instance :
   | _ => False
   end.
 Proof. exact wire_valid_instance. Qed.
+
+(* ---- c13_wire_valid_scripts: the same with prepared messages and their frame cache ----
+   [pms] are the session's PreparedMessage values; [PP i] is WritePreparedMessage(pms[i]) at any
+   point between messages, any number of times (the first send under the connection's
+   (role, compression, level) key computes and caches the frame -- on a client a fragmented run
+   of 4096-byte frames masked with freshly drawn keys --, later sends replay the cached bytes);
+   [PI it] is any item of c13_wire_valid.  Same conclusion. *)
+Theorem c13_wire_valid_scripts c pms ks xs :
+  15 <= blen c < big -> Forall (fun k : bytes => length k = 4%nat) ks -> Forall (pitem_ok pms) xs ->
+  exists s', run_pitems c pms (init_cst false ks) xs = Ok (s', eOK) /\
+  exists fs, rfc_parse (wire_of s') = Some fs /\ rfc_valid (srv c) false fs = true /\
+             messages fs = Some (concat (map (pitem_msgs pms) xs)).
+Proof. intros Hb. exact (wire_valid_scripts c pms Hb ks xs). Qed.
+
+Theorem c13_wire_valid_scripts_instance :
+  let c := mkC false (16 + 14) in
+  let pms := [(2, repeat 5 5000)] in
+  let xs := [PP 0; PI (IWriteMessage 1 [104; 105]); PP 0] in
+  Forall (pitem_ok pms) xs /\
+  match run_pitems c pms (init_cst false [[1;2;3;4]; [5;6;7;8]; [9;9;9;9]]) xs with
+  | Ok (s', e) => e = 0 /\ match rfc_parse (wire_of s') with
+                           | Some fs => rfc_valid false false fs = true /\ length fs = 5%nat
+                                        /\ option_map (@length _) (messages fs) = Some 3%nat
+                           | None => False end
+  | _ => False
+  end.
+Proof. exact scripts_instance. Qed.
 
 (* the same from any fresh connection state: whatever the 14-byte header area in front of the
    write buffer holds initially (on a server it holds the first bytes of the handshake response,
@@ -174,6 +201,8 @@ Proof. exact (mask_fast_spec k pos b). Qed.
 
 Print Assumptions c13_wire_valid.
 Print Assumptions c13_wire_valid_instance.
+Print Assumptions c13_wire_valid_scripts.
+Print Assumptions c13_wire_valid_scripts_instance.
 Print Assumptions c13_wire_valid_any_header.
 Print Assumptions c13_prepared_frame.
 Print Assumptions c13_prepared_first.
